@@ -53,6 +53,48 @@ def gen_tr_spec(rng, deck, allow_plain12=True):
     return deckmod.random_tr(rng, star=True, translate_only=False)
 
 
+IDENTITY = [[1, 0, 0], [0, 1, 0], [0, 0, 1]]
+
+
+def nontrivial_trcl(rng, deck):
+    '''A TRCL that really moves the cell (never a null translation).'''
+    for _ in range(50):
+        spec = gen_tr_spec(rng, deck, allow_plain12=False)
+        tr = deck['transforms'][spec[1]] if isinstance(spec, tuple) else spec
+        if tr['B'] is not None or any(abs(v) > 0 for v in tr['O']):
+            return spec
+    raise RuntimeError('could not draw a non-trivial TRCL')
+
+
+def gen_explicit_fill_tr(rng, deck):
+    '''An explicit fill transformation for a container that also has a TRCL
+    (the fill transformation must win, even when it is the identity): the
+    identity in each of its spellings, or an ordinary one.'''
+    kind = rng.choice(['null3', 'null3', 'star_null3', 'ident12',
+                       'star_ident12', 'num_ident3', 'num_ident12',
+                       'other', 'other'])
+    if kind == 'null3':
+        origin = rng.choice([[0.0, 0.0, 0.0], [0.0, -0.0, 0.0]])
+        return deckmod.make_tr(origin), kind
+    if kind == 'star_null3':
+        tr = deckmod.make_tr([0.0, 0.0, 0.0])
+        tr['star'] = True
+        return tr, kind
+    if kind == 'ident12':
+        return deckmod.make_tr([0.0, 0.0, 0.0], IDENTITY, False), kind
+    if kind == 'star_ident12':
+        return deckmod.make_tr([0.0, 0.0, 0.0], IDENTITY, True), kind
+    if kind in ('num_ident3', 'num_ident12'):
+        n = rng.randint(31, 60)
+        while n in deck['transforms']:
+            n = rng.randint(31, 60)
+        deck['transforms'][n] = (
+            deckmod.make_tr([0.0, 0.0, 0.0]) if kind == 'num_ident3' else
+            deckmod.make_tr([0.0, 0.0, 0.0], IDENTITY, rng.random() < 0.4))
+        return ('num', n), kind
+    return gen_tr_spec(rng, deck), kind
+
+
 def gen_hierarchy(rng):
     depth = rng.choice([1, 1, 2, 2, 3])
     levels = [[0]]
@@ -99,7 +141,18 @@ def gen_hierarchy(rng):
                         [x for l in levels[lvl + 1:] for x in l]
                     tr = None
                     r = rng.random()
-                    if r < 0.65:
+                    if rng.random() < 0.22:
+                        # both a (non-trivial) TRCL and an explicit fill
+                        # transformation, at any level: the fill
+                        # transformation places the universe, even when it is
+                        # the identity
+                        if cell['trcl'] is None:
+                            cell['trcl'] = nontrivial_trcl(rng, deck)
+                        tr, kind = gen_explicit_fill_tr(rng, deck)
+                        deck.setdefault('c05_both', []).append(
+                            (cell['id'], lvl, kind))
+                        r = 2.0
+                    elif r < 0.65:
                         if shared_tr and rng.random() < 0.3:
                             tr = rng.choice(shared_tr)   # same pose reused
                         else:
